@@ -47,6 +47,7 @@ def units(tier):
         ys = list(years)
         for i in range(0, len(ys), 6):
             us.append(("pool", ci, ys[i:i + 6]))
+    us.append(("custom_format",))
     for rep in pools.REPS:
         us.append(("expanded", rep))
         us.append(("offsets", rep))
@@ -188,6 +189,39 @@ def run_unit(unit, ctx):
             ctx.state_count += 1
             ctx.sample(lambda: {"mode": kind, "p": pdesc})
             check_roundtrip(ctx, kind, pdesc)
+    elif u == "custom_format":
+        # values that carry a custom dump format (from the parser's dump_as_parsed / dump_format, or the constructor),
+        # for every agreed number of expanded year digits, and values derived from them (the format is inherited)
+        from metomi.isodatetime.parsers import TimePointParser
+        impl.set_mode(None)
+        for ned in (1, 2, 3):
+            parser = TimePointParser(num_expanded_year_digits=ned)
+            big = 10 ** (4 + ned) - 1
+            for y in (0, -1, 2015, 12345 % (big + 1), -big, big):
+                ydigits = "%s%0*d" % ("-" if y < 0 else "+", 4 + ned, abs(y))
+                for text in (ydigits + "-06-07T08:09:10Z", ydigits + "0607T080910+0545", ydigits + "-158T08:09Z",
+                             ydigits + "-W23-3T08Z", ydigits + "158T08,5-0030"):
+                    ctx.state_count += 1
+                    ctx.transitions += 4
+                    case = {"kind": "custom", "ned": ned, "text": text}
+                    sig = {"ned": ned, "via": "dump_as_parsed"}
+                    try:
+                        p = parser.parse(text, dump_as_parsed=True)
+                        for q, how in ((p, "parsed"), (p + impl.Duration(days=1), "shifted"), (p.to_utc(), "rezoned")):
+                            t1 = str(q)
+                            back = parser.parse(t1)
+                            if not (back == q) or hash(back) != hash(q) or str(parser.parse(t1, dump_as_parsed=True)) != t1:
+                                ctx.violation("custom_format_roundtrip", dict(sig, how=how), case, impl.sstr(q),
+                                              {"text": t1, "parsed": impl.sstr(back)})
+                        if str(p) != text:
+                            ctx.violation("custom_format_roundtrip", dict(sig, how="text"), case, text, str(p))
+                        ctx.traces += 1
+                    except Exception as ex:
+                        if type(ex).__name__ == "TimePointDumperBoundsError":
+                            ctx.count("dump_bounds_refusals")
+                            continue
+                        ctx.violation("total", dict(sig, exc=type(ex).__name__), case, "str and parse work",
+                                      "raised %s: %s" % (type(ex).__name__, ex))
     elif u == "expanded":
         rep = unit[1]
         impl.set_mode(None)
@@ -240,7 +274,10 @@ def run_unit(unit, ctx):
 def replay_case(case, ctx):
     kind = case["mode"]
     impl.set_mode(A.MODE_OF[kind])
-    if case["kind"] == "rt":
+    if case["kind"] == "custom":
+        run_unit(("custom_format",), ctx)
+        ctx.violations[:] = [v for v in ctx.violations if v["case"].get("text") == case["text"] and v["case"].get("ned") == case["ned"]]
+    elif case["kind"] == "rt":
         check_roundtrip(ctx, kind, case["p"], via=case.get("via"))
     else:
         check_dumps(ctx, kind, M.cal(kind), case["p"])
